@@ -66,3 +66,8 @@ void shim_rtr_interval_bounds(uint32_t out[6])
 	out[4] = RTR_RETRY_MIN;
 	out[5] = RTR_RETRY_MAX;
 }
+
+void *shim_spki_lock(struct spki_table *t)
+{
+	return &t->lock;
+}
